@@ -18,13 +18,13 @@ func init() {
 	Descriptions["C08"] = "Ordering/pairing rules on the per-connection goroutine of (*Server).Run, its deferred teardown, (*conn).close and the per-request goroutine of serveRequests: " +
 		"C08-funnel (teardown defer registered before anything that can exit), C08-sequence (requestsWg.Wait -> netConn.Close -> onCloseHandler(id), each exactly once, callback attempted on every path), " +
 		"C08-only (close / netConn.Close / onCloseHandler called nowhere else), C08-paired (every requestsWg.Add(1) immediately followed by a go whose first action defers Done; Done nowhere else), " +
-		"C08-current (Close applied to conn.netConn loaded after Wait), C08-interruptible (handlers blocked in socket I/O are interrupted on shutdown until the teardown has waited for them: rules C11-waker / -first / -lifetime, without which Wait -> Close -> OnClose is never reached on Stop). Decides exactly-once and ordering on every exit path; does not decide the goroutine/descriptor census."
+		"C08-current (Close applied to conn.netConn loaded after Wait), C08-interruptible (handlers blocked in socket I/O are interrupted on shutdown until the teardown has waited for them: rules C11-waker / -first / -lifetime / C11-deadline-kept, without which Wait -> Close -> OnClose is never reached on Stop). Decides exactly-once and ordering on every exit path; does not decide the goroutine/descriptor census."
 	Descriptions["C09"] = "C09-counter (connID given to newConn is a loop induction register phi(0,v+1), incremented once per iteration, never a shared cell), " +
 		"C09-immutable (conn.connID and Request.conn stored only by their constructors from parameters), C09-getter (ConnectionID returns r.conn.connID), " +
 		"C09-onclose (argument of onCloseHandler is a copy of the value given to newConn in the same iteration). Uniqueness within one Run; not across several Run calls or after overflow."
 	Descriptions["C12"] = "C12-done-last (connWg.Done ordered after conn.close and onCloseHandler on every path of the per-connection goroutine), " +
 		"C12-listener-release (every return of Run after a successful net.Listen closes the listener unless the path is the listener-closed accept error), " +
-		"C12-idempotent (Stop's only error return is guarded by the not-already-closed test), C12-stop-order (listener.Close and cancel precede connWg.Wait). " +
+		"C12-accounted (no goroutine started by Run other than the per-connection one is handed an accepted connection), C12-idempotent (Stop's only error return is guarded by the not-already-closed test), C12-stop-order (listener.Close and cancel precede connWg.Wait). " +
 		"C12-add-vs-wait (connWg.Add is ordered with Stop's cancel+Wait by Server.mu and a not-shut-down test in the same critical section). Does not decide kernel-level port state."
 }
 
@@ -465,7 +465,7 @@ func checkC08(c *Ctx) {
 		checkC11(tmp)
 		n := 0
 		for _, o := range tmp.R.Obls {
-			if o.Rule == "C11-waker" || o.Rule == "C11-waker-first" || o.Rule == "C11-waker-lifetime" {
+			if o.Rule == "C11-waker" || o.Rule == "C11-waker-first" || o.Rule == "C11-waker-lifetime" || o.Rule == "C11-deadline-kept" {
 				n++
 				switch o.Status {
 				case report.Discharged:
@@ -845,8 +845,22 @@ func isClosedAtom(v ssa.Value) bool {
 					vals = phi.Edges
 				}
 				nTest := 0
-				for _, rv := range vals {
+				for i, rv := range vals {
 					if v, isC := an.BoolConst(rv); isC && !v {
+						continue
+					}
+					if v, isC := an.BoolConst(rv); isC && v {
+						// `<test1>(err) || <test2>(err)`: the constant-true edge comes from the true branch of another test
+						if phi, isPhi := res.(*ssa.Phi); isPhi && i < len(phi.Block().Preds) {
+							p := phi.Block().Preds[i]
+							if iff, isIf := p.Instrs[len(p.Instrs)-1].(*ssa.If); isIf && p.Succs[0] == phi.Block() && p.Succs[1] != phi.Block() {
+								if ic, isCall := iff.Cond.(*ssa.Call); isCall && ic.Common().StaticCallee() != f && isClosedAtom(ic) {
+									nTest++
+									continue
+								}
+							}
+						}
+						all = false
 						continue
 					}
 					inner, ok := rv.(*ssa.Call)
@@ -918,6 +932,87 @@ func checkC12(c *Ctx) {
 	if m == nil {
 		return
 	}
+	// ---- C12-accounted: an accepted connection is handed to no goroutine other than the per-connection goroutine, the
+	// only one whose end Stop waits for (connWg): any other `go` in Run (or in what Run calls synchronously) that is
+	// given the accepted socket or the conn built on it can still hold the connection open when Stop and Run return.
+	{
+		fromAccept := func(v ssa.Value) bool {
+			var walk func(v ssa.Value, d int) bool
+			walk = func(v ssa.Value, d int) bool {
+				if v == nil || d > 6 {
+					return false
+				}
+				v = an.Strip(v)
+				if ex, ok := v.(*ssa.Extract); ok {
+					if ex.Tuple == ssa.Value(m.accept) || m.newConn != nil && ex.Tuple == ssa.Value(m.newConn) {
+						return true
+					}
+				}
+				if v == ssa.Value(m.newConn) && m.newConn != nil {
+					return true
+				}
+				if al, ok := an.CellRoot(v).(*ssa.Alloc); ok {
+					sts, _ := an.CellStores(al)
+					for _, st := range sts {
+						if walk(st.Val, d+1) {
+							return true
+						}
+					}
+				}
+				switch x := v.(type) {
+				case *ssa.UnOp:
+					return walk(x.X, d+1)
+				case *ssa.FieldAddr:
+					return walk(x.X, d+1)
+				case *ssa.MakeInterface:
+					return walk(x.X, d+1)
+				}
+				return false
+			}
+			return walk(v, 0)
+		}
+		n := 0
+		fns := []*ssa.Function{m.run}
+		for f := range syncReach(m.run) {
+			if f != m.run && an.InModule(f) && !c.P.IsTestFile(f.Pos()) {
+				fns = append(fns, f)
+			}
+		}
+		for _, f := range fns {
+			for _, ci := range an.Calls(f) {
+				g, ok := ci.(*ssa.Go)
+				if !ok {
+					continue
+				}
+				n++
+				key := fname(f) + ": go " + an.Path(g.Common().Value)
+				if sf := an.StaticCallee(g.Common()); sf != nil {
+					key = fname(f) + ": go " + fname(sf)
+				}
+				if g == m.connGo {
+					R.OK("C12-accounted", key, c.pos(g), "the per-connection goroutine: its teardown closes the connection and only then calls connWg.Done")
+					continue
+				}
+				holds := false
+				for _, a := range g.Common().Args {
+					if fromAccept(a) {
+						holds = true
+					}
+				}
+				if mc, isMC := g.Common().Value.(*ssa.MakeClosure); isMC {
+					for _, b := range mc.Bindings {
+						if fromAccept(b) {
+							holds = true
+						}
+					}
+				}
+				R.Check(!holds, "C12-accounted", key, c.pos(g), "is not given an accepted connection", "this goroutine is handed an accepted connection but is not the per-connection goroutine that connWg accounts for: Stop and Run can return while it still holds the socket open (and OnClose is never called for it)")
+			}
+		}
+		R.Count("C12-accounted/go-statements", n)
+		R.Floor("C12-accounted", 1)
+	}
+
 	// ---- C12-done-last
 	isDone := func(cc *ssa.CallCommon) bool { return isWG(cc, "Done", G, "Server", "connWg") }
 	var doneSites []ssa.CallInstruction
